@@ -83,6 +83,19 @@ impl<T> RawTable<T> {
     {
         unimplemented!()
     }
+    // RawTable::capacity / len: plain field arithmetic (not used by the unchanged shrink_to; present so that a
+    // changed text that consults them stays inside the dialect and is decided rather than left undecided)
+    pub fn capacity(&self) -> (r: usize)
+        requires self.table.counts_ok(),
+        ensures r == self.table.items + self.table.growth_left,
+    {
+        self.table.items + self.table.growth_left
+    }
+    pub fn len(&self) -> (r: usize)
+        ensures r == self.table.items,
+    {
+        self.table.items
+    }
     // contract of resize (R: r_resize): every element moved into a table of capacity_to_buckets(capacity) buckets
     #[verifier::external_body]
     pub fn resize<H>(&mut self, capacity: usize, hasher: H, fallibility: Fallibility) -> (r: Result<(), TryReserveError>)
